@@ -6,6 +6,7 @@ ids="$@"; [ -z "$ids" ] && ids=$(ls seeded)
 for id in $ids; do
   for m in seeded/$id/*/; do
     [ -f "$m/patch.diff" ] || continue
+    if [ -n "$MUTS" ]; then case " $MUTS " in *" $(basename $m) "*) ;; *) continue;; esac; fi
     res=$(./fv mutate "$m/patch.diff" $id 2>&1 | tail -4 | tr '\n' ' ')
     echo "$(date +%H:%M) $id $(basename $m): $res" >> .cache/seeded_results.txt
   done
